@@ -105,6 +105,49 @@ for v in POOL:
 
 
 # mapping protocol of the containers (text and binary flavour) vs a dict model
+def serialize_is_pure(rows, shared, mask):
+    """writing does not change what is written: columns with an explicit mask (over string, integer or float data,
+    the data array possibly shared with another column) hold the same data afterwards, serialise to the same text
+    again, and the other column reads back unchanged"""
+    base = np.array(["GLY", "ALA", "SER", "TRP"][:rows], dtype="U")
+    data = pdbx.CIFData(base)
+    m = np.array(mask[:rows], dtype=np.uint8)
+    masked = pdbx.CIFColumn(data, pdbx.CIFData(m))
+    other = pdbx.CIFColumn(data if shared == "CIFData" else pdbx.CIFData(base if shared == "ndarray" else base.copy()))
+    cat = pdbx.CIFCategory({"masked": masked, "plain": other})
+    f = pdbx.CIFFile()
+    f["blk"] = pdbx.CIFBlock({"tab": cat})
+    before = (masked.data.array.tolist(), other.data.array.tolist(), masked.mask.array.tolist())
+    text1 = f.serialize()
+    after = (masked.data.array.tolist(), other.data.array.tolist(), masked.mask.array.tolist())
+    if after != before:
+        return f"serialize() changed the stored columns: {before} -> {after}"
+    text2 = f.serialize()
+    if text2 != text1:
+        return "serialising twice gives different text"
+    g = pdbx.CIFFile.deserialize(text1)["blk"]["tab"]
+    if g["plain"].as_array(str).tolist() != base.tolist() or g["plain"].mask is not None:
+        return f"unmasked column reads back as {g['plain'].as_array(str).tolist()} with mask {None if g['plain'].mask is None else g['plain'].mask.array.tolist()}, wrote {base.tolist()}"
+    gm = g["masked"]
+    exp_mask = m.tolist()
+    got_mask = gm.mask.array.tolist() if gm.mask is not None else [0] * rows
+    if got_mask != exp_mask:
+        return f"mask reads back as {got_mask}, wrote {exp_mask}"
+    for i in range(rows):
+        if exp_mask[i] == 0 and gm.data.array[i] != base[i]:
+            return f"present value {base[i]!r} of the masked column reads back as {gm.data.array[i]!r}"
+    if base.tolist() != ["GLY", "ALA", "SER", "TRP"][:rows]:
+        return f"the caller's array was changed to {base.tolist()}"
+    return None
+
+
+for rows in (1, 2, 4):
+    for shared in ("CIFData", "ndarray", "no"):
+        for mask in ([0, 0, 0, 0], [0, 1, 0, 2], [2, 0, 1, 0], [1, 2, 1, 2]):
+            R.check("writing leaves the written containers unchanged", f"serialize with masks, data shared: {shared}",
+                    {"rows": rows, "shared": shared, "mask": mask[:rows]}, lambda rows=rows, shared=shared, mask=mask: serialize_is_pure(rows, shared, mask))
+
+
 def mapping_protocol(make_file, make_block, make_cat, lazy):
     f = make_file()
     model = {}
